@@ -11,10 +11,15 @@ CFG = {
                   "2^16) proved as C14_too_long_rejected_partial. A finite test cannot enumerate the segmentations of even one "
                   "8 KiB packet (2^8193); the induction over the segment list does.",
     "level_note": "PARTIAL while F4 is open: C14_too_long_rejected is replaced by _partial + _witness; the strict monitor flags every "
-                  "write longer than 65535 (known finding F4). Tie to the source is C only (differential correspondence of the "
+                  "write longer than 65535 (known finding F4). Tie to the source is C (differential correspondence of the "
                   "hand-written model with the real functions and their users through fake net.Conns; exhaustive over the small "
-                  "domain stated in 'rule', random beyond it): the two functions contain loops and I/O calls and are outside the "
-                  "translator's subset, so no T/S tie; a change to the code is seen only through a generated input. "
+                  "domain stated in 'rule', random beyond it) and T for the two functions themselves: writeStreamingPacket and "
+                  "readStreamingPacket are regenerated on every run in effect mode (the too-long test, uint16(len), the one Write, n-2; "
+                  "the short-buffer test before any body read, the error returns, the count returned) and proved equal to the model's "
+                  "write / readPacket for every packet, segmentation and capacity (C14_code_write, C14_code_read); the two short-read "
+                  "loops of the reader are cut out as effects whose exact source text is pinned by the spec (an edit inside them is a "
+                  "translation failure) and whose behaviour is the model's `fill`, tied by C only; the users of the two functions "
+                  "(tcpPacketConn, handleConn, activeTCPConn) are tied by C only. "
                   "Modelled, not verified: net.Conn (Read returns min(len p, head segment) bytes and data and error never together, "
                   "as TCP does; a conn that returns (n>0, io.EOF) would lose the last packet in the code and is outside the model; a "
                   "Read returning (0, nil) is modelled for finitely many occurrences, (0, nil) forever would spin and is excluded); "
@@ -42,7 +47,7 @@ CFG = {
             "random}; arbitrary garbage streams; users: tcpPacketConn (AddConn/startReading/ReadFrom), TCPMuxDefault.handleConn "
             "(first frame of 36..1000 bytes around the 512-byte buffer, then startReading), activeTCPConn over loopback. "
             "quick ~ 2.4e5 lines, thorough ~ 1.9e6. Distinct = distinct (operation, output) lines; non-trivial = not skip/bad-op.",
-    "translated": [],
+    "translated": ["writeStreamingPacket", "readStreamingPacket"],
     "trusted_base": ["net.Conn semantics of the fake connection (segments, terminal error; data and error never in the same Read)",
                      "canonicaliser: FNV-1a digests for packets > 8 bytes and for read logs > 64 entries",
                      "kernel TCP loopback for the activeTCPConn runs (segmentation not controlled, result must not depend on it)"],
